@@ -406,6 +406,9 @@ func (a Int) M__imul__(other Object) (Object, error) {
 }
 
 func (a Int) M__truediv__(other Object) (Object, error) {
+	if b, ok := ConvertToBigInt(other); ok {
+		return bigIntTrueDiv(big.NewInt(int64(a)), (*big.Int)(b))
+	}
 	b, err := MakeFloat(other)
 	if err != nil {
 		return nil, err
@@ -419,6 +422,9 @@ func (a Int) M__truediv__(other Object) (Object, error) {
 }
 
 func (a Int) M__rtruediv__(other Object) (Object, error) {
+	if b, ok := ConvertToBigInt(other); ok {
+		return bigIntTrueDiv((*big.Int)(b), big.NewInt(int64(a)))
+	}
 	b, err := MakeFloat(other)
 	if err != nil {
 		return nil, err
